@@ -468,17 +468,21 @@ def findEvents (live : List SEv) (f : FilterRec) (allow : Bool) (allowLimit allo
 def removeAll (live : List SEv) (evs : List SEv) : List SEv :=
   evs.foldl (fun l x => removeId l x.e.id) live
 
-/-- first half of `vanish`: everything the key authored (found through the author index) -/
-def vanishAuthored (live : List SEv) (pk : Bytes) : List SEv :=
-  match findEvents live ⟨[], [pk], [], [], 0, U64MAX, U32MAX⟩ true 0 0 0 (fun _ => .match) with
+/-- remove whatever a query found (a refused query finds nothing) -/
+def removeFound (live : List SEv) : FindReply → List SEv
   | .ok evs _ => removeAll live evs
   | .scraper => live
 
+def authorFilter (pk : Bytes) : FilterRec := ⟨[], [pk], [], [], 0, U64MAX, U32MAX⟩
+def wrapFilter (pk : Bytes) : FilterRec := ⟨[], [], [1059], [[KEY_P, hexOf pk]], 0, U64MAX, U32MAX⟩
+
+/-- first half of `vanish`: everything the key authored (found through the author index) -/
+def vanishAuthored (live : List SEv) (pk : Bytes) : List SEv :=
+  removeFound live (findEvents live (authorFilter pk) true 0 0 0 (fun _ => .match))
+
 /-- second half: gift wraps (kind 1059) whose `p` tag names the key -/
 def vanishWraps (live : List SEv) (pk : Bytes) : List SEv :=
-  match findEvents live ⟨[], [], [1059], [[KEY_P, hexOf pk]], 0, U64MAX, U32MAX⟩ true 0 0 0 (fun _ => .match) with
-  | .ok evs _ => removeAll live evs
-  | .scraper => live
+  removeFound live (findEvents live (wrapFilter pk) true 0 0 0 (fun _ => .match))
 
 /-- `Store::vanish` -/
 def vanish (s : Store) (pk : Bytes) : Store :=
